@@ -306,5 +306,29 @@ def make_shrinker(fl: str, process_fn):
 
 
 shrink_violation = make_shrinker("native", process)
-KNOWN_CLASSES: dict = {}
-WITNESSES: dict = {}
+
+
+def has_overflow_string(v) -> bool:
+    """a string leaf that spells a number too large for a float ('1e400'): typed inf, which has no spelling (D2)"""
+    if isinstance(v, dict):
+        return any(has_overflow_string(x) for x in v.values())
+    if isinstance(v, list):
+        return any(has_overflow_string(x) for x in v)
+    if isinstance(v, str):
+        c = spec.classify(v)
+        return isinstance(c, float) and (c != c or abs(c) == float("inf"))
+    return False
+
+
+def _d2_class(v: dict) -> bool:
+    c = v["input"]
+    return c.get("kind") == "dict" and has_overflow_string(dec(c["d"]))
+
+
+def _w2() -> bool:
+    r = impl.file_roundtrip({"k": "1e400"})
+    return r.get("k") == "inf"
+
+
+KNOWN_CLASSES = {"overflow_number_string": _d2_class}
+WITNESSES = {"D2": _w2}
